@@ -212,7 +212,11 @@ func firstIndex(order []*DNode) map[string]int {
 func synthContent(seed uint64, n int) []byte {
 	b := make([]byte, n)
 	for i := range b {
-		b[i] = byte((uint64(i)*7 + uint64(i)/251 + seed) % 256)
+		if seed >= 1000 {
+			b[i] = byte(seed % 256) // constant content: every chunk repeats (de-duplicated store)
+		} else {
+			b[i] = byte((uint64(i)*7 + uint64(i)/251 + seed) % 256)
+		}
 	}
 	return b
 }
